@@ -801,7 +801,7 @@ ASSUMPTIONS = [
 EXPLANATION = "Soundness of each rewrite rule of simplify() over the assumed MX algebra."
 MANIFEST = {
     "category": "proof",
-    "text": "Each rewrite rule of simplify() is extracted structurally from the real _simplify_once and executed on every equation shape its pattern matcher distinguishes, with symbolic leaves: the recorded binding (constant value, eliminated-variable expression, signed alias) is proved EQUIVALENT to the dropped equation for all values of the symbols (z3, real arithmetic), factor_and_simplify preserves the zero set under the statement's precondition, and _make_alias records exactly one correctly signed alias when it reports success. The eliminable-variable loop is executed with the real extract_assignment and the real get_derivative (chain rule through ca.jacobian, modelled by symbolic partial derivatives): every recorded pair, in particular (der(v), derivative of v's defining expression) for an eliminated differentiated variable, holds along every trajectory of the original equations and their time derivatives (rate of time 1, of parameters 0, of an input an arbitrary real), for chains of eliminated variables in both orders. A bounded replay compares simplified and unsimplified residuals on generated models with a known unique solution.",
+    "text": "Each rewrite rule of simplify() is extracted structurally from the real _simplify_once and executed on every equation shape its pattern matcher distinguishes, with symbolic leaves: the recorded binding (constant value, eliminated-variable expression, signed alias) is proved EQUIVALENT to the dropped equation for all values of the symbols (z3, real arithmetic), factor_and_simplify preserves the zero set under the statement's precondition, and _make_alias records exactly one correctly signed alias when it reports success. The eliminable-variable loop is executed with the real extract_assignment and the real get_derivative (chain rule through ca.jacobian, modelled by symbolic partial derivatives): every recorded pair, in particular (der(v), derivative of v's defining expression) for an eliminated differentiated variable, holds along every trajectory of the original equations and their time derivatives (rate of time 1, of parameters 0, of an input an arbitrary real), for chains of eliminated variables in both orders. A bounded replay compares simplified and unsimplified residuals on generated models with a known unique solution. Model._expand_simplify_mx is executed as a whole: every equation rebuilt from its SX expansion denotes the original (SX constants print with six digits, as in CasADi). Recorded replacement values mention only variables of the model.",
     "note": "Assumed MX algebra; per-rule soundness only (the composition is argued, not proved); the non-affine slow-path alias is a known finding.",
     "technique": "contract-based deductive verification: structural fragment extraction of nested functions, symbolic execution over an assumed term algebra, real-arithmetic VCs, z3",
 }
